@@ -316,8 +316,17 @@ class Engine:
         lo = len(sim.tr.events)
         res = {}
         order = [vn for vn in ("ref", "trc", "sys") if vn in sim.v]
-        for vn in order:
+        for k, vn in enumerate(order):
+            # distinct value ranges are not needed: the twins never see each other
             res[vn] = sim.run(vn, thunk_of(op), tape, faults, box=box)
+        if op["op"] in ("gen_drop", "gc"):
+            # one global collection step for all twins (S3): each twin's
+            # finalisers log into its own persistent Env / the tracer / the probes
+            gc.collect()
+            if op["op"] == "gc":
+                sim.reach("gc_collect")
+        for vn in order:
+            sim.finish(vn, res[vn])
         hi = len(sim.tr.events)
         ob = {
             "op": op,
@@ -473,7 +482,7 @@ class Engine:
     # -- code ops + invariants -------------------------------------------------
     def op_code(self, op):
         sim = self.sim
-        thunk_of = sim.call_thunk if op["op"] == "call" else sim.gen_thunk
+        thunk_of = {"call": sim.call_thunk, "gc": sim.gc_thunk}.get(op["op"], sim.gen_thunk)
         ob, res = self.run_code(op, thunk_of)
         self.obs.append(ob)
         ok_model = self.check_model(ob)
@@ -527,7 +536,7 @@ class Engine:
             self.opi = i
             self.sim.opn = i
             kind = op["op"]
-            if kind == "call" or kind.startswith("gen_"):
+            if kind in ("call", "gc") or kind.startswith("gen_"):
                 res = self.op_code(op)
             else:
                 res = self.step(op)
